@@ -9,12 +9,13 @@ from lib.flow import Failure
 from props import c03
 
 MANIFEST = {
-    "text": "Theorems C06_row_accounting, C06_stream_rows, C06_row_closed_form (Coq): on the token-layer model of the parser (tied to the code by C03's "
+    "text": "Theorems C06_row_accounting, C06_stream_rows, C06_row_closed_form, C06_rows_every_text (Coq): on the token-layer model of the parser (tied to the code by C03's "
             "correspondence, which compares Row and ErrorRow after every Read) each Read moves the reported row by exactly "
             "the line breaks the token stands for — 1 for a line-break token, the breaks inside a freshly lexed string "
             "literal, 0 for a token replayed after Unget — so a row is 1 + the line breaks consumed (repaired code); lifted by induction to the whole token stream "
             "(read_all, the function the correspondence runs): for every text and every number of Reads the row after the "
-            "k-th Read is the start row plus the line breaks of the first k tokens. That "
+            "k-th Read is the start row plus the line breaks of the first k tokens, and for every source text the stream exists and satisfies this from row 1 "
+            "(C06_rows_every_text, composing C03's totality). That "
             "an extra line-break token at a statement boundary changes nothing else is the evaluator's business and is "
             "evaluated end-to-end: blank / comment lines inserted at every kind of statement boundary of generated programs, "
             "string literals widened by line breaks, final newline added / removed.",
